@@ -21,7 +21,17 @@ sys.path.insert(0, os.path.join(VERIF, "bin"))
 import props  # noqa: E402
 
 BUILD = os.path.join(VERIF, "build")
-NPROC = int(os.environ.get("VERIF_JOBS", "16"))
+def _default_jobs():
+    # 16 workers on an idle machine; fewer when the machine is already oversubscribed (same cases either way: case i is a
+    # function of (seed, target, i), workers only partition the index space)
+    try:
+        load = os.getloadavg()[0]
+    except OSError:
+        load = 0
+    return 16 if load < 32 else (8 if load < 96 else 4)
+
+
+NPROC = int(os.environ.get("VERIF_JOBS", "0") or "0") or _default_jobs()
 PYVT = shutil.which("python3-vt") or "/opt/veriftools/pyvenv/bin/python3"
 
 
